@@ -1,6 +1,1696 @@
-//! C11 — not built yet.
+//! C11 — every accepted request gets exactly one matching response from the right zone.
+//!
+//! Runs the private `ServerContext::handle_request` (hook `verif_handle_request`) on raw request
+//! bytes against a real `Catalog` (in-memory zones wrapped in a call logger, scripted chained
+//! handlers), with allow/deny network sets, over UDP and TCP, and counts / inspects what arrives on
+//! the receiver paired with the `BufDnsStreamHandle`.
+//!
+//! Line protocol (see lean/HickoryVerif/Drv/C11.lean):
+//!   begin <zones> <deny> <allow>
+//!   req <u|t> <src> <hex> <body> <edns> <zl>   body/edns/zl are (re)computed here with the real code
+//!   end
+use std::collections::BTreeMap;
+use std::net::{IpAddr, Ipv4Addr, Ipv6Addr, SocketAddr};
+use std::sync::{Arc, Mutex};
+use std::time::{Duration, Instant};
+
+use futures_util::{FutureExt, StreamExt};
+use hickory_net::runtime::Time;
+use hickory_net::xfer::Protocol;
+use hickory_net::BufDnsStreamHandle;
+use hickory_proto::op::{Edns, Header, Message, MessageRequest, MessageType, OpCode, Queries, Query, ResponseCode};
+use hickory_proto::rr::rdata::{A, NS, SOA, TXT};
+use hickory_proto::rr::{DNSClass, LowerName, Name, RData, Record, RecordType, TSigResponseContext};
+use hickory_proto::serialize::binary::{BinDecodable, BinDecoder};
+use hickory_server::dnssec::NxProofKind;
+use hickory_server::server::{verif_handle_request, Request, RequestHandler, RequestInfo, ResponseHandler};
+use hickory_server::store::in_memory::InMemoryZoneHandler;
+use hickory_server::zone_handler::{
+    AuthLookup, AxfrPolicy, AxfrRecords, Catalog, LookupControlFlow, LookupError, LookupOptions, LookupRecords,
+    Nsec3QueryInfo, ZoneHandler, ZoneTransfer, ZoneType,
+};
+use ipnet::IpNet;
+
 use crate::common::*;
 
-pub fn run(_o: &Opts, rec: &mut Recorder) {
-    rec.rule = "stub".into();
+// ------------------------------------------------------------------ handlers
+
+type Log = Arc<Mutex<Vec<String>>>;
+
+/// the same `Catalog` instance serves every request of a block (survival is about *this* state)
+struct Shared(Arc<Catalog>);
+
+#[async_trait::async_trait]
+impl RequestHandler for Shared {
+    async fn handle_request<R: ResponseHandler, T: Time>(&self, request: &Request, response_handle: R) {
+        self.0.handle_request::<R, T>(request, response_handle).await
+    }
+}
+
+/// a real `InMemoryZoneHandler` that records which of its entry points the catalog called
+struct Logged {
+    inner: InMemoryZoneHandler,
+    zi: usize,
+    hi: usize,
+    log: Log,
+}
+
+impl Logged {
+    fn note(&self, k: &str) {
+        self.log.lock().unwrap().push(format!("{k}{}.{}", self.zi, self.hi));
+    }
+}
+
+#[async_trait::async_trait]
+impl ZoneHandler for Logged {
+    fn zone_type(&self) -> ZoneType {
+        self.inner.zone_type()
+    }
+    fn axfr_policy(&self) -> AxfrPolicy {
+        self.inner.axfr_policy()
+    }
+    fn can_validate_dnssec(&self) -> bool {
+        self.inner.can_validate_dnssec()
+    }
+    async fn update(&self, update: &Request, now: u64) -> (Result<bool, ResponseCode>, Option<TSigResponseContext>) {
+        self.note("u");
+        self.inner.update(update, now).await
+    }
+    fn origin(&self) -> &LowerName {
+        self.inner.origin()
+    }
+    async fn lookup(
+        &self,
+        name: &LowerName,
+        rtype: RecordType,
+        request_info: Option<&RequestInfo<'_>>,
+        lookup_options: LookupOptions,
+    ) -> LookupControlFlow<AuthLookup> {
+        self.inner.lookup(name, rtype, request_info, lookup_options).await
+    }
+    async fn consult(
+        &self,
+        name: &LowerName,
+        rtype: RecordType,
+        request_info: Option<&RequestInfo<'_>>,
+        lookup_options: LookupOptions,
+        last_result: LookupControlFlow<AuthLookup>,
+    ) -> (LookupControlFlow<AuthLookup>, Option<TSigResponseContext>) {
+        self.note("c");
+        self.inner.consult(name, rtype, request_info, lookup_options, last_result).await
+    }
+    async fn search(
+        &self,
+        request: &Request,
+        lookup_options: LookupOptions,
+    ) -> (LookupControlFlow<AuthLookup>, Option<TSigResponseContext>) {
+        self.note("s");
+        self.inner.search(request, lookup_options).await
+    }
+    async fn nsec_records(&self, name: &LowerName, lookup_options: LookupOptions) -> LookupControlFlow<AuthLookup> {
+        self.inner.nsec_records(name, lookup_options).await
+    }
+    async fn nsec3_records(&self, info: Nsec3QueryInfo<'_>, lookup_options: LookupOptions) -> LookupControlFlow<AuthLookup> {
+        self.inner.nsec3_records(info, lookup_options).await
+    }
+    async fn zone_transfer(
+        &self,
+        request: &Request,
+        lookup_options: LookupOptions,
+        now: u64,
+    ) -> Option<(Result<ZoneTransfer, LookupError>, Option<TSigResponseContext>)> {
+        self.note("x");
+        self.inner.zone_transfer(request, lookup_options, now).await
+    }
+    fn nx_proof_kind(&self) -> Option<&NxProofKind> {
+        self.inner.nx_proof_kind()
+    }
+    fn metrics_label(&self) -> &'static str {
+        "verif-mem"
+    }
+}
+
+#[derive(Clone, Copy, Debug, PartialEq)]
+enum LRes {
+    Ok,
+    Err(u16),
+}
+
+#[derive(Clone, Copy, Debug, PartialEq)]
+enum Flow {
+    Skip,
+    Cont(LRes),
+    Brk(LRes),
+}
+
+fn lres(r: LRes) -> Result<AuthLookup, LookupError> {
+    match r {
+        LRes::Ok => Ok(AuthLookup::Empty),
+        LRes::Err(rc) => Err(LookupError::ResponseCode(<ResponseCode as From<u16>>::from(rc))),
+    }
+}
+
+fn flow(f: Flow) -> LookupControlFlow<AuthLookup> {
+    match f {
+        Flow::Skip => LookupControlFlow::Skip,
+        Flow::Cont(r) => LookupControlFlow::Continue(lres(r)),
+        Flow::Brk(r) => LookupControlFlow::Break(lres(r)),
+    }
+}
+
+/// a chained-handler test double (after tests/integration-tests chained_zone_handler_tests.rs)
+struct Scripted {
+    origin: LowerName,
+    zt: ZoneType,
+    search: Flow,
+    consult: Option<Flow>,
+    update: u16,
+    xfer: Option<LRes>,
+    zi: usize,
+    hi: usize,
+    log: Log,
+}
+
+impl Scripted {
+    fn note(&self, k: &str) {
+        self.log.lock().unwrap().push(format!("{k}{}.{}", self.zi, self.hi));
+    }
+}
+
+#[async_trait::async_trait]
+impl ZoneHandler for Scripted {
+    fn zone_type(&self) -> ZoneType {
+        self.zt
+    }
+    fn axfr_policy(&self) -> AxfrPolicy {
+        AxfrPolicy::Deny
+    }
+    async fn update(&self, _update: &Request, _now: u64) -> (Result<bool, ResponseCode>, Option<TSigResponseContext>) {
+        self.note("u");
+        if self.update == 0 {
+            (Ok(true), None)
+        } else {
+            (Err(<ResponseCode as From<u16>>::from(self.update)), None)
+        }
+    }
+    fn origin(&self) -> &LowerName {
+        &self.origin
+    }
+    async fn lookup(
+        &self,
+        _name: &LowerName,
+        _rtype: RecordType,
+        _request_info: Option<&RequestInfo<'_>>,
+        _lookup_options: LookupOptions,
+    ) -> LookupControlFlow<AuthLookup> {
+        // only reached from `build_authoritative_response` (NS / SOA of the origin)
+        LookupControlFlow::Skip
+    }
+    async fn consult(
+        &self,
+        _name: &LowerName,
+        _rtype: RecordType,
+        _request_info: Option<&RequestInfo<'_>>,
+        _lookup_options: LookupOptions,
+        last_result: LookupControlFlow<AuthLookup>,
+    ) -> (LookupControlFlow<AuthLookup>, Option<TSigResponseContext>) {
+        self.note("c");
+        match self.consult {
+            Some(f) => (flow(f), None),
+            None => (last_result, None),
+        }
+    }
+    async fn search(
+        &self,
+        _request: &Request,
+        _lookup_options: LookupOptions,
+    ) -> (LookupControlFlow<AuthLookup>, Option<TSigResponseContext>) {
+        self.note("s");
+        (flow(self.search), None)
+    }
+    async fn nsec_records(&self, _name: &LowerName, _lookup_options: LookupOptions) -> LookupControlFlow<AuthLookup> {
+        LookupControlFlow::Continue(Ok(AuthLookup::Empty))
+    }
+    async fn nsec3_records(&self, _info: Nsec3QueryInfo<'_>, _lookup_options: LookupOptions) -> LookupControlFlow<AuthLookup> {
+        LookupControlFlow::Continue(Ok(AuthLookup::Empty))
+    }
+    async fn zone_transfer(
+        &self,
+        _request: &Request,
+        _lookup_options: LookupOptions,
+        _now: u64,
+    ) -> Option<(Result<ZoneTransfer, LookupError>, Option<TSigResponseContext>)> {
+        self.note("x");
+        match self.xfer {
+            None => None,
+            Some(LRes::Ok) => Some((
+                Ok(ZoneTransfer {
+                    start_soa: LookupRecords::Empty,
+                    records: AxfrRecords::new(false, vec![]),
+                    end_soa: LookupRecords::Empty,
+                }),
+                None,
+            )),
+            Some(LRes::Err(rc)) => Some((Err(LookupError::ResponseCode(<ResponseCode as From<u16>>::from(rc))), None)),
+        }
+    }
+    fn nx_proof_kind(&self) -> Option<&NxProofKind> {
+        None
+    }
+    fn metrics_label(&self) -> &'static str {
+        "verif-scripted"
+    }
+}
+
+// ------------------------------------------------------------------ configuration
+
+#[derive(Clone, Debug)]
+enum HSpec {
+    Mem { axfr: bool },
+    Scr { zt: ZoneType, search: Flow, consult: Option<Flow>, update: u16, xfer: Option<LRes> },
+}
+
+#[derive(Clone, Debug)]
+struct ZSpec {
+    origin: Name,
+    handlers: Vec<HSpec>,
+}
+
+struct Cfg {
+    zones: Vec<ZSpec>,
+    deny: Vec<IpNet>,
+    allow: Vec<IpNet>,
+    catalog: Arc<Catalog>,
+    /// the in-memory handlers, to ask them directly what their zone content yields
+    mems: Vec<(usize, usize, Arc<Logged>)>,
+    log: Log,
+    /// survival probe: a known-good query and the response it got before any other request
+    probe: Vec<u8>,
+    baseline: Vec<Vec<u8>>,
+}
+
+fn parse_lres(s: &str) -> Option<LRes> {
+    match s {
+        "o" => Some(LRes::Ok),
+        _ => Some(LRes::Err(s.strip_prefix('e')?.parse().ok()?)),
+    }
+}
+
+fn parse_flow(s: &str) -> Option<Flow> {
+    if s == "S" {
+        return Some(Flow::Skip);
+    }
+    let (k, r) = s.split_at(1);
+    match k {
+        "C" => Some(Flow::Cont(parse_lres(r)?)),
+        "B" => Some(Flow::Brk(parse_lres(r)?)),
+        _ => None,
+    }
+}
+
+fn flow_tok(f: Flow) -> String {
+    let r = |r: LRes| match r {
+        LRes::Ok => "o".to_string(),
+        LRes::Err(c) => format!("e{c}"),
+    };
+    match f {
+        Flow::Skip => "S".into(),
+        Flow::Cont(x) => format!("C{}", r(x)),
+        Flow::Brk(x) => format!("B{}", r(x)),
+    }
+}
+
+fn parse_handler(s: &str) -> Option<HSpec> {
+    let p: Vec<&str> = s.split('/').collect();
+    match p.as_slice() {
+        ["mem", ax] => Some(HSpec::Mem { axfr: *ax == "1" }),
+        ["scr", zt, se, co, up, xf] => Some(HSpec::Scr {
+            zt: match *zt {
+                "p" => ZoneType::Primary,
+                "s" => ZoneType::Secondary,
+                "e" => ZoneType::External,
+                _ => return None,
+            },
+            search: parse_flow(se)?,
+            consult: if *co == "-" { None } else { Some(parse_flow(co)?) },
+            update: up.parse().ok()?,
+            xfer: if *xf == "n" { None } else { Some(parse_lres(xf)?) },
+        }),
+        _ => None,
+    }
+}
+
+fn handler_tok(h: &HSpec) -> String {
+    match h {
+        HSpec::Mem { axfr } => format!("mem/{}", b(*axfr)),
+        HSpec::Scr { zt, search, consult, update, xfer } => format!(
+            "scr/{}/{}/{}/{}/{}",
+            match zt {
+                ZoneType::Primary => "p",
+                ZoneType::Secondary => "s",
+                ZoneType::External => "e",
+            },
+            flow_tok(*search),
+            consult.map(flow_tok).unwrap_or("-".into()),
+            update,
+            match xfer {
+                None => "n".to_string(),
+                Some(LRes::Ok) => "o".into(),
+                Some(LRes::Err(c)) => format!("e{c}"),
+            }
+        ),
+    }
+}
+
+fn parse_zones(s: &str) -> Option<Vec<ZSpec>> {
+    if s == "-" {
+        return Some(vec![]);
+    }
+    s.split('|')
+        .map(|z| {
+            let (n, hs) = z.split_once('=')?;
+            let handlers = if hs == "-" { vec![] } else { hs.split(',').map(parse_handler).collect::<Option<_>>()? };
+            Some(ZSpec { origin: parse_name(n)?, handlers })
+        })
+        .collect()
+}
+
+fn zones_tok(z: &[ZSpec]) -> String {
+    if z.is_empty() {
+        return "-".into();
+    }
+    z.iter()
+        .map(|z| {
+            let hs = if z.handlers.is_empty() { "-".to_string() } else { z.handlers.iter().map(handler_tok).collect::<Vec<_>>().join(",") };
+            format!("{}={}", name_tok(&z.origin), hs)
+        })
+        .collect::<Vec<_>>()
+        .join("|")
+}
+
+fn parse_ip(s: &str) -> Option<IpAddr> {
+    let (f, a) = s.split_once(':')?;
+    match f {
+        "4" => Some(IpAddr::V4(Ipv4Addr::from(a.parse::<u32>().ok()?))),
+        "6" => Some(IpAddr::V6(Ipv6Addr::from(a.parse::<u128>().ok()?))),
+        _ => None,
+    }
+}
+
+fn ip_tok(ip: IpAddr) -> String {
+    match ip {
+        IpAddr::V4(a) => format!("4:{}", u32::from(a)),
+        IpAddr::V6(a) => format!("6:{}", u128::from(a)),
+    }
+}
+
+fn parse_nets(s: &str) -> Option<Vec<IpNet>> {
+    if s == "-" {
+        return Some(vec![]);
+    }
+    s.split(',')
+        .map(|p| {
+            let (ip, l) = p.split_once('/')?;
+            IpNet::new(parse_ip(ip)?, l.parse().ok()?).ok()
+        })
+        .collect()
+}
+
+fn nets_tok(n: &[IpNet]) -> String {
+    if n.is_empty() {
+        return "-".into();
+    }
+    n.iter().map(|p| format!("{}/{}", ip_tok(p.addr()), p.prefix_len())).collect::<Vec<_>>().join(",")
+}
+
+fn mem_zone(origin: &Name, axfr: bool) -> InMemoryZoneHandler {
+    let mut z = InMemoryZoneHandler::empty(
+        origin.clone(),
+        ZoneType::Primary,
+        if axfr { AxfrPolicy::AllowAll } else { AxfrPolicy::Deny },
+        None,
+    );
+    let mut abs = origin.clone();
+    abs.set_fqdn(true);
+    let sub = |l: &str| Name::from_ascii(l).ok().and_then(|n| n.append_domain(&abs).ok());
+    let ns = sub("ns").unwrap_or_else(|| abs.clone());
+    let soa = SOA::new(ns.clone(), abs.clone(), 1, 3600, 600, 86400, 60);
+    z.upsert_mut(Record::from_rdata(abs.clone(), 3600, RData::SOA(soa)), 0);
+    z.upsert_mut(Record::from_rdata(abs.clone(), 3600, RData::NS(NS(ns.clone()))), 0);
+    z.upsert_mut(Record::from_rdata(abs.clone(), 60, RData::TXT(TXT::new(vec!["apex".to_string()]))), 0);
+    if let Some(www) = sub("www") {
+        z.upsert_mut(Record::from_rdata(www, 60, RData::A(A::new(192, 0, 2, 1))), 0);
+    }
+    if ns != abs {
+        z.upsert_mut(Record::from_rdata(ns, 60, RData::A(A::new(192, 0, 2, 53))), 0);
+    }
+    z
+}
+
+fn build_cfg(zones: Vec<ZSpec>, deny: Vec<IpNet>, allow: Vec<IpNet>) -> Cfg {
+    let log: Log = Arc::new(Mutex::new(vec![]));
+    let mut catalog = Catalog::new();
+    let mut mems = vec![];
+    for (zi, z) in zones.iter().enumerate() {
+        let mut hs: Vec<Arc<dyn ZoneHandler>> = vec![];
+        for (hi, h) in z.handlers.iter().enumerate() {
+            match h {
+                HSpec::Mem { axfr } => {
+                    let l = Arc::new(Logged { inner: mem_zone(&z.origin, *axfr), zi, hi, log: log.clone() });
+                    mems.push((zi, hi, l.clone()));
+                    hs.push(l)
+                }
+                HSpec::Scr { zt, search, consult, update, xfer } => hs.push(Arc::new(Scripted {
+                    origin: LowerName::from(&z.origin),
+                    zt: *zt,
+                    search: *search,
+                    consult: *consult,
+                    update: *update,
+                    xfer: *xfer,
+                    zi,
+                    hi,
+                    log: log.clone(),
+                })),
+            }
+        }
+        catalog.upsert(LowerName::from(&z.origin), hs);
+    }
+    // survival probe: www.<first absolute in-memory zone>, else a fixed name
+    let probe_name = zones
+        .iter()
+        .find(|z| z.origin.is_fqdn() && matches!(z.handlers.first(), Some(HSpec::Mem { .. })))
+        .and_then(|z| Name::from_ascii("www").ok()?.append_domain(&z.origin).ok())
+        .unwrap_or_else(|| Name::from_ascii("alive.invalid.").unwrap());
+    let mut m = Message::query();
+    m.metadata.id = 0xA11E;
+    m.metadata.recursion_desired = true;
+    m.add_query(Query::new(probe_name, RecordType::A));
+    let probe = m.to_vec().expect("probe encodes");
+    Cfg { zones, deny, allow, catalog: Arc::new(catalog), mems, log, probe, baseline: vec![] }
+}
+
+// ------------------------------------------------------------------ running one message
+
+static CURRENT: Mutex<Option<(Instant, String)>> = Mutex::new(None);
+
+fn start_watchdog() {
+    std::thread::spawn(|| loop {
+        std::thread::sleep(Duration::from_millis(250));
+        if let Some((t, line)) = CURRENT.lock().unwrap().as_ref() {
+            if t.elapsed() > Duration::from_secs(30) {
+                eprintln!("HANG: no result within 30 s for case: {line}");
+                std::process::exit(3);
+            }
+        }
+    });
+}
+
+struct Runner {
+    rt: tokio::runtime::Runtime,
+    cfg: Option<Cfg>,
+}
+
+/// feeds one raw message to the server context and returns everything it sent
+fn serve(rt: &tokio::runtime::Runtime, cfg: &Cfg, deny: &[IpNet], allow: &[IpNet], bytes: &[u8], src: SocketAddr, proto: Protocol) -> Vec<Vec<u8>> {
+    let catalog = cfg.catalog.clone();
+    rt.block_on(async move {
+        let (handle, mut rx) = BufDnsStreamHandle::new(src);
+        verif_handle_request(Shared(catalog), deny, allow, bytes.to_vec(), src, proto, handle).await;
+        let mut out = vec![];
+        // the handle (and every clone made of it) is gone: drain whatever was queued
+        while let Some(Some(m)) = rx.next().now_or_never() {
+            out.push(m.into_parts().0);
+        }
+        out
+    })
+}
+
+/// what the real decoder says about the request (the model's parameters, and the oracle's facts)
+struct Parsed {
+    header: Option<Header>,
+    /// `Queries::read` succeeded: the question bytes of the request and the parsed query
+    question: Option<(Vec<u8>, Query)>,
+    /// `MessageRequest::read_with_queries` succeeded (None: not reached)
+    body: Option<bool>,
+    edns_version: Option<u8>,
+}
+
+fn parse_request(bytes: &[u8]) -> Parsed {
+    let mut p = Parsed { header: None, question: None, body: None, edns_version: None };
+    let mut d = BinDecoder::new(bytes);
+    let Ok(h) = Header::read(&mut d) else { return p };
+    p.header = Some(h);
+    let Ok(q) = Queries::read(&mut d, h.counts.queries as usize) else { return p };
+    // the question bytes as they stand in the request (not `Queries::as_bytes()`)
+    p.question = Some((bytes[12..d.index()].to_vec(), (*q).original().clone()));
+    match MessageRequest::read_with_queries(&mut d, q, h) {
+        Ok(m) => {
+            p.body = Some(true);
+            p.edns_version = m.edns.as_ref().map(Edns::version);
+        }
+        Err(_) => p.body = Some(false),
+    }
+    p
+}
+
+/// the response as read by a small lenient scanner written here (independent of hickory's decoder)
+#[derive(Debug, Default)]
+struct Resp {
+    id: u16,
+    qr: bool,
+    op: u8,
+    aa: bool,
+    tc: bool,
+    rd: bool,
+    ra: bool,
+    cd: bool,
+    rc_low: u8,
+    qd: u16,
+    /// question section equals the request's question bytes
+    echo: Option<bool>,
+    opt: Option<(u8, u8)>,
+    scan_ok: bool,
+}
+
+fn skip_name(b: &[u8], mut p: usize) -> Option<usize> {
+    loop {
+        let x = *b.get(p)?;
+        if x == 0 {
+            return Some(p + 1);
+        } else if x >= 0xC0 {
+            b.get(p + 1)?;
+            return Some(p + 2);
+        } else if x < 64 {
+            p += 1 + x as usize;
+        } else {
+            return None;
+        }
+    }
+}
+
+fn scan_response(r: &[u8], req_q: Option<&[u8]>) -> Option<Resp> {
+    if r.len() < 12 {
+        return None;
+    }
+    let u16at = |p: usize| -> Option<u16> { Some(u16::from_be_bytes([*r.get(p)?, *r.get(p + 1)?])) };
+    let mut x = Resp {
+        id: u16at(0)?,
+        qr: r[2] & 0x80 != 0,
+        op: (r[2] >> 3) & 0xF,
+        aa: r[2] & 4 != 0,
+        tc: r[2] & 2 != 0,
+        rd: r[2] & 1 != 0,
+        ra: r[3] & 0x80 != 0,
+        cd: r[3] & 0x10 != 0,
+        rc_low: r[3] & 0xF,
+        qd: u16at(4)?,
+        ..Default::default()
+    };
+    let mut p = 12;
+    match x.qd {
+        0 => x.echo = Some(false),
+        1 => match req_q {
+            Some(q) if r[12..].starts_with(q) => {
+                x.echo = Some(true);
+                p += q.len();
+            }
+            _ => match skip_name(r, p) {
+                Some(e) => p = e + 4,
+                None => return Some(x),
+            },
+        },
+        _ => return Some(x),
+    }
+    let n = u16at(6)? as usize + u16at(8)? as usize + u16at(10)? as usize;
+    for _ in 0..n {
+        let Some(e) = skip_name(r, p) else { return Some(x) };
+        let (Some(t), Some(ttl_hi), Some(rdlen)) = (u16at(e), u16at(e + 4), u16at(e + 8)) else { return Some(x) };
+        if t == 41 {
+            x.opt = Some(((ttl_hi >> 8) as u8, (ttl_hi & 0xFF) as u8));
+        }
+        p = e + 10 + rdlen as usize;
+        if p > r.len() {
+            return Some(x);
+        }
+    }
+    x.scan_ok = p == r.len();
+    Some(x)
+}
+
+// ------------------------------------------------------------------ the property's oracle (independent of the model)
+
+/// reference decoder for the question at offset 12: follows compression pointers (bounded), no
+/// limits enforced — only used to compare what request and response *say*
+fn decode_question(m: &[u8]) -> Option<(Vec<Vec<u8>>, u16, u16)> {
+    let mut labels = vec![];
+    let mut p = 12usize;
+    let mut end: Option<usize> = None;
+    let mut hops = 0;
+    loop {
+        let x = *m.get(p)?;
+        if x == 0 {
+            p += 1;
+            break;
+        } else if x >= 0xC0 {
+            let t = (((x & 0x3F) as usize) << 8) | *m.get(p + 1)? as usize;
+            if end.is_none() {
+                end = Some(p + 2);
+            }
+            hops += 1;
+            if hops > 64 {
+                return None;
+            }
+            p = t;
+        } else if x < 64 {
+            labels.push(m.get(p + 1..p + 1 + x as usize)?.to_vec());
+            p += 1 + x as usize;
+        } else {
+            return None;
+        }
+    }
+    let e = end.unwrap_or(p);
+    let t = u16::from_be_bytes([*m.get(e)?, *m.get(e + 1)?]);
+    let c = u16::from_be_bytes([*m.get(e + 2)?, *m.get(e + 3)?]);
+    Some((labels, t, c))
+}
+
+fn lower(l: &[u8]) -> Vec<u8> {
+    l.iter().map(|c| c.to_ascii_lowercase()).collect()
+}
+
+/// `zone` (an absolute name) is `name` or an ancestor of it, ignoring ASCII case
+fn encloses(zone: &Name, name: &Name) -> bool {
+    if !zone.is_fqdn() {
+        return false;
+    }
+    let z: Vec<Vec<u8>> = zone.iter().rev().map(lower).collect();
+    let n: Vec<Vec<u8>> = name.iter().rev().map(lower).collect();
+    z.len() <= n.len() && z.iter().zip(n.iter()).all(|(a, b)| a == b)
+}
+
+/// index of the configured zone with the longest origin enclosing `name` (the last upsert of an
+/// origin is the configured one)
+fn right_zone(zones: &[ZSpec], name: &Name) -> Option<usize> {
+    let mut best: Option<usize> = None;
+    for (i, z) in zones.iter().enumerate() {
+        if encloses(&z.origin, name) {
+            match best {
+                Some(b) if zones[b].origin.num_labels() > z.origin.num_labels() => {}
+                _ => best = Some(i),
+            }
+        }
+    }
+    best
+}
+
+/// the source is denied: longest matching deny prefix not beaten by a strictly longer matching
+/// allow prefix; with no match at all only an allow-only list denies.  v4-mapped v6 counts as v4.
+fn ref_denied(deny: &[IpNet], allow: &[IpNet], ip: IpAddr) -> bool {
+    let ip = match ip {
+        IpAddr::V6(v6) => match v6.to_ipv4_mapped() {
+            Some(v4) => IpAddr::V4(v4),
+            None => ip,
+        },
+        v4 => v4,
+    };
+    let same = |n: &&IpNet| n.addr().is_ipv4() == ip.is_ipv4();
+    let best = |s: &[IpNet]| s.iter().filter(same).filter(|n| n.contains(&ip)).map(|n| n.prefix_len()).max();
+    match (best(deny), best(allow)) {
+        (Some(d), Some(a)) => a <= d,
+        (Some(_), None) => true,
+        (None, Some(_)) => false,
+        (None, None) => deny.iter().filter(same).count() == 0 && allow.iter().filter(same).count() > 0,
+    }
+}
+
+const FORMERR: u16 = 1;
+const NOTIMP: u16 = 4;
+const REFUSED: u16 = 5;
+const BADVERS: u16 = 16;
+
+impl Runner {
+    fn exec(&mut self, line: &str, rec: &mut Recorder) {
+        let t: Vec<&str> = line.split_whitespace().collect();
+        match t.as_slice() {
+            ["begin", zones, deny, allow] => {
+                let (Some(z), Some(d), Some(a)) = (parse_zones(zones), parse_nets(deny), parse_nets(allow)) else {
+                    rec.stat("skipped.unparsable-case");
+                    return;
+                };
+                let mut cfg = build_cfg(z, d, a);
+                let src: SocketAddr = "127.0.0.1:5353".parse().unwrap();
+                let probe = cfg.probe.clone();
+                let base = catch(|| serve(&self.rt, &cfg, &[], &[], &probe, src, Protocol::Udp));
+                cfg.log.lock().unwrap().clear();
+                let idx = rec.case(line.to_string(), "ok".into());
+                match base {
+                    Ok(b) => {
+                        let good = b.len() == 1 && b[0].len() >= 12 && b[0][..2] == probe[..2] && b[0][2] & 0x80 != 0;
+                        if !good {
+                            rec.fail(idx, format!("known-good probe query not answered by a fresh server: {} responses", b.len()), "");
+                        }
+                        cfg.baseline = b;
+                    }
+                    Err(p) => rec.fail(idx, format!("panic on the known-good probe query: {p}"), ""),
+                }
+                rec.stat(&format!("cfg.zones={}", cfg.zones.len().min(6)));
+                rec.stat(&format!("cfg.acl.deny={} allow={}", b(!cfg.deny.is_empty()), b(!cfg.allow.is_empty())));
+                if cfg.zones.iter().any(|z| z.handlers.len() > 1) {
+                    rec.stat("cfg.chained");
+                }
+                self.cfg = Some(cfg);
+            }
+            ["end"] => {
+                self.cfg = None;
+                rec.case(line.to_string(), "ok".into());
+            }
+            ["req", proto, src, bytes, ..] => {
+                let (Some(cfg), Some(ip), Some(bytes)) = (self.cfg.as_ref(), parse_ip(src), unhex(bytes)) else {
+                    rec.stat("skipped.unparsable-case");
+                    return;
+                };
+                let protocol = if *proto == "t" { Protocol::Tcp } else { Protocol::Udp };
+                Self::request(&self.rt, cfg, proto, ip, protocol, &bytes, rec);
+            }
+            _ => rec.stat("skipped.unparsable-case"),
+        }
+    }
+
+    fn request(rt: &tokio::runtime::Runtime, cfg: &Cfg, proto: &str, ip: IpAddr, protocol: Protocol, bytes: &[u8], rec: &mut Recorder) {
+        let src = SocketAddr::new(ip, 4242);
+        // summary by the real decoder → canonical case line
+        let parsed = catch(|| parse_request(bytes));
+        let Ok(parsed) = parsed else {
+            let idx = rec.case(format!("req {proto} {} {} na - -", ip_tok(ip), hex(bytes)), "panic decoder".into());
+            rec.fail(idx, "the request decoder panicked", "");
+            return;
+        };
+        let body_tok = match parsed.body {
+            None => "na",
+            Some(true) => "ok",
+            Some(false) => "bad",
+        };
+        let edns_tok = parsed.edns_version.map(|v| v.to_string()).unwrap_or("-".into());
+        // what each in-memory zone's own lookup code yields for this question (C10's business)
+        let zl: Vec<String> = match &parsed.question {
+            Some((_, q)) if q.query_type != RecordType::AXFR => cfg
+                .mems
+                .iter()
+                .map(|(zi, hi, m)| {
+                    let name = LowerName::from(&q.name);
+                    let r = catch(|| rt.block_on(m.inner.lookup(&name, q.query_type, None, LookupOptions::default())));
+                    let res = |r: &Result<AuthLookup, LookupError>| match r {
+                        Ok(_) => "o".to_string(),
+                        Err(LookupError::ResponseCode(rc)) => format!("e{}", u16::from(*rc)),
+                        Err(_) => "e0".to_string(),
+                    };
+                    let f = match &r {
+                        Ok(LookupControlFlow::Continue(x)) => format!("C{}", res(x)),
+                        Ok(LookupControlFlow::Break(x)) => format!("B{}", res(x)),
+                        Ok(LookupControlFlow::Skip) => "S".to_string(),
+                        Err(_) => "Cz".to_string(),
+                    };
+                    format!("{zi}.{hi}:{f}")
+                })
+                .collect(),
+            _ => vec![],
+        };
+        let zl_tok = if zl.is_empty() { "-".to_string() } else { zl.join(",") };
+        let line = format!("req {proto} {} {} {body_tok} {edns_tok} {zl_tok}", ip_tok(ip), hex(bytes));
+        *CURRENT.lock().unwrap() = Some((Instant::now(), line.clone()));
+
+        cfg.log.lock().unwrap().clear();
+        let got = catch(|| serve(rt, cfg, &cfg.deny, &cfg.allow, bytes, src, protocol));
+        let log: Vec<String> = std::mem::take(&mut *cfg.log.lock().unwrap());
+        // survival: the known-good probe must be answered exactly as before
+        let probe_src: SocketAddr = "127.0.0.1:5353".parse().unwrap();
+        let after = catch(|| serve(rt, cfg, &[], &[], &cfg.probe, probe_src, Protocol::Udp));
+        cfg.log.lock().unwrap().clear();
+        *CURRENT.lock().unwrap() = None;
+
+        let req_q = parsed.question.as_ref().map(|(b, _)| &b[..]);
+        let (out, resp): (String, Option<Resp>) = match &got {
+            Err(p) => (format!("panic {p}"), None),
+            Ok(v) if v.is_empty() => ("drop".into(), None),
+            Ok(v) if v.len() > 1 => (format!("multi {}", v.len()), None),
+            Ok(v) => match scan_response(&v[0], req_q) {
+                None => ("reply-short".into(), None),
+                Some(r) => {
+                    let rc = (r.opt.map(|o| (o.0 as u16) << 4).unwrap_or(0)) | r.rc_low as u16;
+                    let s = format!(
+                        "reply qr={} rc={} id={} op={} rd={} cd={} aa={} ra={} q={} opt={} log={}",
+                        b(r.qr),
+                        rc,
+                        r.id,
+                        r.op,
+                        b(r.rd),
+                        b(r.cd),
+                        b(r.aa),
+                        b(r.ra),
+                        match r.echo {
+                            Some(x) => b(x),
+                            None => "?",
+                        },
+                        b(r.opt.is_some()),
+                        if log.is_empty() { "-".to_string() } else { log.join(",") }
+                    );
+                    (s, Some(r))
+                }
+            },
+        };
+        let idx = rec.case(line, out);
+
+        // ---------------------------------------------------------------- oracle
+        let n = got.as_ref().map(|v| v.len()).unwrap_or(0);
+        let mut fails: Vec<(String, &str)> = vec![];
+        if let Err(p) = &got {
+            fails.push((format!("panic while handling the request: {p}"), ""));
+        }
+        match &after {
+            Err(p) => fails.push((format!("server did not survive: panic on the following known-good query: {p}"), "")),
+            Ok(a) if *a != cfg.baseline => fails.push((format!("server did not survive: known-good query answered differently afterwards ({} responses)", a.len()), "")),
+            _ => {}
+        }
+        let hdr_qr = bytes.len() >= 12 && bytes[2] & 0x80 != 0;
+        let must_drop = bytes.len() < 12 || hdr_qr;
+        rec.stat(&format!("proto.{proto}"));
+        rec.stat(&format!("responses.{}", n.min(3)));
+        if got.is_ok() {
+            if must_drop {
+                rec.stat(if bytes.len() < 12 { "class.short" } else { "class.qr=1" });
+                if n != 0 {
+                    fails.push((format!("{n} response(s) to a message that is itself a response or shorter than a header"), ""));
+                }
+            } else if n != 1 {
+                fails.push((format!("{n} responses to one request (exactly one expected)"), ""));
+            }
+        }
+        if let (false, Some(r), Ok(v)) = (must_drop, resp.as_ref(), got.as_ref()) {
+            let opcode = (bytes[2] >> 3) & 0xF;
+            let id = u16::from_be_bytes([bytes[0], bytes[1]]);
+            let rc = (r.opt.map(|o| (o.0 as u16) << 4).unwrap_or(0)) | r.rc_low as u16;
+            rec.stat(&format!("opcode.{opcode}"));
+            rec.stat(&format!("rcode.{rc}"));
+            rec.nontrivial(idx);
+            if !r.qr {
+                fails.push(("response without QR".into(), ""));
+            }
+            if r.id != id {
+                fails.push((format!("response id {} != request id {id}", r.id), ""));
+            }
+            if !r.scan_ok {
+                fails.push(("response is not a well-formed sequence of sections".into(), ""));
+            }
+            let known_op = matches!(opcode, 0 | 2 | 4 | 5);
+            // the table: which verdicts apply to this request
+            let mut s: Vec<u16> = vec![];
+            if !matches!(opcode, 0 | 5) {
+                s.push(NOTIMP);
+            }
+            let unparsable = parsed.question.is_none() || parsed.body == Some(false);
+            if unparsable {
+                s.push(FORMERR);
+            }
+            let denied = ref_denied(&cfg.deny, &cfg.allow, ip);
+            if denied {
+                s.push(REFUSED);
+            }
+            if parsed.edns_version.is_some_and(|v| v > 0) {
+                s.push(BADVERS);
+            }
+            let zone = parsed.question.as_ref().and_then(|(_, q)| right_zone(&cfg.zones, &q.name));
+            if opcode == 0 && parsed.question.is_some() && zone.is_none() {
+                s.push(REFUSED);
+            }
+            rec.stat(&format!("acl.{}", if denied { "denied" } else { "allowed" }));
+            if let Some(v) = parsed.edns_version {
+                rec.stat(&format!("edns.v{}", if v > 1 { "2+".to_string() } else { v.to_string() }));
+            }
+            if !s.is_empty() {
+                rec.stat(&format!("table.{}", s.iter().map(|c| c.to_string()).collect::<Vec<_>>().join("+")));
+                if !s.contains(&rc) {
+                    fails.push((format!("response code {rc}, but the request calls for one of {s:?}"), ""));
+                }
+                if denied && !log.is_empty() {
+                    rec.stat("note.denied-source-reached-a-zone");
+                }
+            } else {
+                rec.stat(if opcode == 0 { "table.query-served" } else { "table.update-served" });
+                // answered from the zone with the longest origin enclosing the name
+                for c in &log {
+                    let z: Option<usize> = c[1..].split_once('.').and_then(|(z, _)| z.parse().ok());
+                    if z != zone {
+                        fails.push((format!("handler call {c} is not on the zone with the longest enclosing origin ({zone:?})"), ""));
+                        break;
+                    }
+                }
+                if opcode == 0 {
+                    if let Some(z) = zone {
+                        rec.stat(&format!("zone.depth={}", cfg.zones[z].origin.num_labels().min(5)));
+                        if cfg.zones[z].handlers.len() > 1 {
+                            rec.stat("zone.chained");
+                        }
+                        if log.is_empty() && !cfg.zones[z].handlers.is_empty() {
+                            fails.push(("a served query reached no handler of its zone".into(), ""));
+                        }
+                    }
+                }
+            }
+            // question: required once the server parsed it (known opcode, question decodes).
+            // "Equal" is judged on the decoded question (labels octet for octet, type, class), read
+            // from request and response by the small decoder below — echoing the request's bytes is
+            // how the server achieves it, but the bytes must still *mean* the same in the response.
+            if known_op {
+                if let Some((qb, q)) = &parsed.question {
+                    let compressed = qb[..qb.len() - 4] != wire_name(&labels_of(&q.name))[..];
+                    if compressed {
+                        rec.stat("question.compressed");
+                    }
+                    let want = decode_question(bytes);
+                    let have = if r.qd == 1 { decode_question(&v[0]) } else { None };
+                    if want.is_none() {
+                        rec.stat("note.question-not-decodable-by-reference-decoder");
+                    } else if have != want {
+                        if compressed && r.echo == Some(true) {
+                            fails.push((
+                                "the echoed question bytes contain a compression pointer into the header and decode to a different question (or not at all) in the response".into(),
+                                "C11.CompressedQuestionEcho",
+                            ));
+                        } else {
+                            fails.push(("response does not carry the request's question".into(), ""));
+                        }
+                    }
+                }
+            }
+            let _ = MessageType::Query;
+        }
+        for (w, c) in fails {
+            rec.fail(idx, w, c);
+        }
+    }
+}
+
+// ------------------------------------------------------------------ generators
+
+fn wire_name(labels: &[Vec<u8>]) -> Vec<u8> {
+    let mut v = vec![];
+    for l in labels {
+        v.push(l.len() as u8);
+        v.extend(l);
+    }
+    v.push(0);
+    v
+}
+
+fn labels_of(n: &Name) -> Vec<Vec<u8>> {
+    n.iter().map(|l| l.to_vec()).collect()
+}
+
+fn header(id: u16, b2: u8, b3: u8, qd: u16, an: u16, ns: u16, ar: u16) -> Vec<u8> {
+    let mut v = vec![];
+    v.extend(id.to_be_bytes());
+    v.push(b2);
+    v.push(b3);
+    for c in [qd, an, ns, ar] {
+        v.extend(c.to_be_bytes());
+    }
+    v
+}
+
+fn rr(name: &[u8], typ: u16, class: u16, ttl: u32, rdata: &[u8]) -> Vec<u8> {
+    let mut v = name.to_vec();
+    v.extend(typ.to_be_bytes());
+    v.extend(class.to_be_bytes());
+    v.extend(ttl.to_be_bytes());
+    v.extend((rdata.len() as u16).to_be_bytes());
+    v.extend(rdata);
+    v
+}
+
+fn opt_rr(payload: u16, ext: u8, ver: u8, flags: u16, rdata: &[u8]) -> Vec<u8> {
+    rr(&[0], 41, payload, ((ext as u32) << 24) | ((ver as u32) << 16) | flags as u32, rdata)
+}
+
+fn name(s: &str) -> Name {
+    Name::from_ascii(s).unwrap()
+}
+
+const RCS: &[u16] = &[1, 2, 3, 4, 5, 9, 8, 10, 16, 23];
+
+fn gen_lres(r: &mut Rng) -> LRes {
+    if r.chance(1, 2) { LRes::Ok } else { LRes::Err(*r.pick(RCS)) }
+}
+
+fn gen_flow(r: &mut Rng) -> Flow {
+    match r.below(5) {
+        0 => Flow::Skip,
+        1 | 2 => Flow::Cont(gen_lres(r)),
+        _ => Flow::Brk(gen_lres(r)),
+    }
+}
+
+fn gen_scripted(r: &mut Rng) -> HSpec {
+    HSpec::Scr {
+        zt: *r.pick(&[ZoneType::Primary, ZoneType::Primary, ZoneType::Secondary, ZoneType::External]),
+        search: gen_flow(r),
+        consult: if r.chance(1, 2) { None } else { Some(gen_flow(r)) },
+        update: *r.pick(&[0u16, 0, 1, 2, 5, 9, 10, 4]),
+        xfer: match r.below(4) {
+            0 => None,
+            _ => Some(gen_lres(r)),
+        },
+    }
+}
+
+fn gen_handlers(r: &mut Rng) -> Vec<HSpec> {
+    match r.below(10) {
+        0..=4 => vec![HSpec::Mem { axfr: r.chance(1, 3) }],
+        5 => vec![],
+        6 => vec![gen_scripted(r)],
+        _ => {
+            // chained
+            let k = r.range(2, 4);
+            (0..k)
+                .map(|_| if r.chance(1, 4) { HSpec::Mem { axfr: r.chance(1, 2) } } else { gen_scripted(r) })
+                .collect()
+        }
+    }
+}
+
+fn zone_pool() -> Vec<Name> {
+    let mut v: Vec<Name> = [
+        ".", "com.", "example.com.", "sub.example.com.", "a.b.sub.example.com.", "example.org.", "org.", "EXAMPLE.net.",
+        "xn--nxasmq6b.example.com.", "deep.er.and.deep.er.example.org.", "test.", "10.in-addr.arpa.", "ple.com.",
+    ]
+    .iter()
+    .map(|s| name(s))
+    .collect();
+    // a relative origin (never matches), an origin with a binary label, a long one
+    let mut rel = name("example.com");
+    rel.set_fqdn(false);
+    v.push(rel);
+    v.push(Name::from_labels([&b"\x00\xffA."[..], &b"com"[..]]).unwrap());
+    let mut long = Name::root();
+    for _ in 0..60 {
+        long = long.append_label(&b"abc"[..]).unwrap();
+    }
+    v.push(long);
+    v
+}
+
+fn gen_zones(r: &mut Rng) -> Vec<ZSpec> {
+    let pool = zone_pool();
+    let k = match r.below(10) {
+        0 => 0,
+        1 => 1,
+        _ => r.range(2, 7) as usize,
+    };
+    let mut z: Vec<ZSpec> = (0..k).map(|_| ZSpec { origin: r.pick(&pool).clone(), handlers: gen_handlers(r) }).collect();
+    if r.chance(1, 6) && !z.is_empty() {
+        // upsert the same origin again (different letter case): replaces the handlers
+        let mut o = z[0].origin.to_ascii().to_uppercase();
+        if !z[0].origin.is_fqdn() {
+            o = z[0].origin.to_ascii();
+        }
+        if let Ok(n) = Name::from_ascii(&o) {
+            let mut n = n;
+            n.set_fqdn(z[0].origin.is_fqdn());
+            z.push(ZSpec { origin: n, handlers: gen_handlers(r) });
+        }
+    }
+    z
+}
+
+fn v4(a: u8, b_: u8, c: u8, d: u8) -> IpAddr {
+    IpAddr::V4(Ipv4Addr::new(a, b_, c, d))
+}
+
+fn gen_net(r: &mut Rng) -> IpNet {
+    let bases4: &[(IpAddr, u8)] = &[
+        (v4(10, 0, 0, 0), 8),
+        (v4(10, 1, 0, 0), 16),
+        (v4(10, 1, 2, 0), 24),
+        (v4(10, 1, 2, 3), 32),
+        (v4(10, 1, 0, 3), 29),
+        (v4(192, 168, 0, 0), 16),
+        (v4(192, 168, 1, 0), 24),
+        (v4(0, 0, 0, 0), 0),
+        (v4(127, 0, 0, 0), 8),
+        (v4(128, 0, 0, 0), 1),
+        (v4(255, 255, 255, 255), 32),
+    ];
+    let bases6: &[(&str, u8)] = &[
+        ("fd00::", 8),
+        ("fd00::", 120),
+        ("fd00::1", 128),
+        ("2001:db8::", 32),
+        ("2001:db8:1::", 48),
+        ("::", 0),
+        ("::ffff:10.0.0.0", 104),
+        ("::ffff:0.0.0.0", 96),
+        ("::10.0.0.0", 104),
+        ("fe80::", 10),
+    ];
+    if r.chance(2, 3) {
+        let (a, l) = *r.pick(bases4);
+        let l = if r.chance(1, 6) { r.below(33) as u8 } else { l };
+        IpNet::new(a, l).unwrap()
+    } else {
+        let (a, l) = *r.pick(bases6);
+        let l = if r.chance(1, 6) { r.below(129) as u8 } else { l };
+        IpNet::new(a.parse().unwrap(), l).unwrap()
+    }
+}
+
+fn gen_acl(r: &mut Rng) -> (Vec<IpNet>, Vec<IpNet>) {
+    let n = |r: &mut Rng, k: u64| -> Vec<IpNet> { (0..k).map(|_| gen_net(r)).collect() };
+    match r.below(10) {
+        0..=3 => (vec![], vec![]),
+        4 => {
+            let k = r.range(1, 3);
+            (n(r, k), vec![])
+        }
+        5 => {
+            let k = r.range(1, 3);
+            (vec![], n(r, k))
+        }
+        6 => {
+            // the same prefix in both lists
+            let p = gen_net(r);
+            (vec![p], vec![p])
+        }
+        _ => {
+            let (kd, ka) = (r.range(1, 4), r.range(1, 4));
+            (n(r, kd), n(r, ka))
+        }
+    }
+}
+
+fn gen_src(r: &mut Rng, deny: &[IpNet], allow: &[IpNet]) -> IpAddr {
+    let all: Vec<&IpNet> = deny.iter().chain(allow.iter()).collect();
+    let ip = if !all.is_empty() && r.chance(3, 5) {
+        // inside / at the edges / just outside a configured prefix
+        let p = **r.pick(&all);
+        match p {
+            IpNet::V4(p) => {
+                let (lo, hi) = (u32::from(p.network()), u32::from(p.broadcast()));
+                IpAddr::V4(Ipv4Addr::from(match r.below(5) {
+                    0 => lo,
+                    1 => hi,
+                    2 => lo.wrapping_sub(1),
+                    3 => hi.wrapping_add(1),
+                    _ => lo + (r.next() as u32) % (hi - lo).max(1),
+                }))
+            }
+            IpNet::V6(p) => {
+                let (lo, hi) = (u128::from(p.network()), u128::from(p.broadcast()));
+                IpAddr::V6(Ipv6Addr::from(match r.below(5) {
+                    0 => lo,
+                    1 => hi,
+                    2 => lo.wrapping_sub(1),
+                    3 => hi.wrapping_add(1),
+                    _ => lo + ((r.next() as u128) << 64 | r.next() as u128) % (hi - lo).max(1),
+                }))
+            }
+        }
+    } else {
+        match r.below(6) {
+            0 => v4(127, 0, 0, 1),
+            1 => v4(8, 8, 8, 8),
+            2 => v4(10, 1, 2, 3),
+            3 => "2001:db8::1".parse().unwrap(),
+            4 => "fd00::1".parse().unwrap(),
+            _ => IpAddr::V4(Ipv4Addr::from(r.next() as u32)),
+        }
+    };
+    // a v4 source as seen on a dual-stack socket
+    match ip {
+        IpAddr::V4(a) if r.chance(1, 5) => IpAddr::V6(a.to_ipv6_mapped()),
+        IpAddr::V4(a) if r.chance(1, 30) => IpAddr::V6(Ipv6Addr::from(u32::from(a) as u128)), // v4-compatible: stays v6
+        x => x,
+    }
+}
+
+fn flip_case(r: &mut Rng, l: &mut [u8]) {
+    for c in l.iter_mut() {
+        if c.is_ascii_alphabetic() && r.chance(1, 2) {
+            *c ^= 0x20;
+        }
+    }
+}
+
+/// a query name placed relative to the configured zones
+fn gen_qname(r: &mut Rng, zones: &[ZSpec]) -> Vec<Vec<u8>> {
+    let pool = zone_pool();
+    let base = if !zones.is_empty() && r.chance(5, 6) { r.pick(zones).origin.clone() } else { r.pick(&pool).clone() };
+    let mut l = labels_of(&base);
+    match r.below(10) {
+        0 | 1 => {}
+        2 | 3 | 4 => l.insert(0, b"www".to_vec()),
+        5 => {
+            for _ in 0..r.range(1, 3) {
+                l.insert(0, r.pick(&[&b"a"[..], b"sub", b"x-y", b"*", b"ns", b"\x00", b"deep"]).to_vec());
+            }
+        }
+        6 => {
+            if !l.is_empty() {
+                l.remove(0);
+            }
+        }
+        7 => {
+            // sibling: change the first label
+            if !l.is_empty() {
+                l[0].push(b'x');
+                l[0].truncate(63);
+            } else {
+                l.push(b"nozone".to_vec());
+            }
+        }
+        8 => {
+            // same suffix characters but a different label boundary: "xexample.com"
+            if !l.is_empty() {
+                l[0].insert(0, b'x');
+                l[0].truncate(63);
+            }
+        }
+        _ => l = vec![b"unrelated".to_vec(), b"invalid".to_vec()],
+    }
+    if r.chance(1, 3) {
+        for x in l.iter_mut() {
+            flip_case(r, x);
+        }
+    }
+    while l.iter().map(|x| x.len() + 1).sum::<usize>() + 1 > 255 {
+        l.remove(0);
+    }
+    l
+}
+
+const QTYPES: &[u16] = &[1, 1, 1, 2, 6, 6, 16, 28, 255, 252, 252, 251, 41, 0, 65535, 5, 15, 47, 250, 249];
+const QCLASSES: &[u16] = &[1, 1, 1, 1, 1, 3, 254, 255, 0, 2];
+
+struct Built {
+    bytes: Vec<u8>,
+    /// offsets worth mutating
+    qlen: usize,
+}
+
+fn gen_edns(r: &mut Rng) -> Option<Vec<u8>> {
+    if r.chance(3, 5) {
+        return None;
+    }
+    let ver = *r.pick(&[0u8, 0, 0, 1, 255, 2]);
+    let payload = *r.pick(&[0u16, 512, 1232, 4096, 65535, 100]);
+    let flags = *r.pick(&[0u16, 0x8000, 0x8000, 0xFFFF, 1]);
+    let ext = *r.pick(&[0u8, 0, 0, 1, 255]);
+    let rdata: Vec<u8> = match r.below(5) {
+        0 => vec![0, 3, 0, 0],                         // NSID request
+        1 => vec![0, 10, 0, 8, 1, 2, 3, 4, 5, 6, 7, 8], // cookie
+        _ => vec![],
+    };
+    Some(opt_rr(payload, ext, ver, flags, &rdata))
+}
+
+/// a well-formed request of the given opcode
+fn gen_valid(r: &mut Rng, zones: &[ZSpec], opcode: u8) -> Built {
+    let id = r.next() as u16;
+    let mut b2 = opcode << 3;
+    if r.chance(1, 2) {
+        b2 |= 1; // RD
+    }
+    if r.chance(1, 10) {
+        b2 |= 4; // AA
+    }
+    if r.chance(1, 12) {
+        b2 |= 2; // TC
+    }
+    let mut b3 = 0u8;
+    if r.chance(1, 4) {
+        b3 |= 0x10; // CD
+    }
+    if r.chance(1, 6) {
+        b3 |= 0x20; // AD
+    }
+    if r.chance(1, 12) {
+        b3 |= 0x40; // Z
+    }
+    if r.chance(1, 12) {
+        b3 |= 0x80; // RA
+    }
+    if r.chance(1, 10) {
+        b3 |= r.below(16) as u8; // an rcode in a request
+    }
+    let ql = gen_qname(r, zones);
+    let qname = wire_name(&ql);
+    let (qtype, qclass) = match opcode {
+        5 => (if r.chance(5, 6) { 6 } else { *r.pick(QTYPES) }, *r.pick(QCLASSES)),
+        4 => (6, 1),
+        _ => (*r.pick(QTYPES), *r.pick(QCLASSES)),
+    };
+    let mut q = qname.clone();
+    q.extend(qtype.to_be_bytes());
+    q.extend(qclass.to_be_bytes());
+    let qlen = q.len();
+    let mut sections: Vec<Vec<Vec<u8>>> = vec![vec![], vec![], vec![]];
+    if opcode == 5 {
+        // RFC 2136: prerequisites / updates built from the repo's own record types
+        let owner = {
+            let mut l = ql.clone();
+            l.insert(0, b"new".to_vec());
+            while l.iter().map(|x| x.len() + 1).sum::<usize>() + 1 > 255 {
+                l.remove(1);
+            }
+            wire_name(&l)
+        };
+        for _ in 0..r.below(3) {
+            sections[0].push(match r.below(3) {
+                0 => rr(&owner, 255, 255, 0, &[]), // name is in use
+                1 => rr(&owner, 1, 254, 0, &[]),   // rrset does not exist
+                _ => rr(&owner, 1, 1, 0, &[192, 0, 2, 7]),
+            });
+        }
+        for _ in 0..r.below(4) {
+            sections[1].push(match r.below(4) {
+                0 => rr(&owner, 1, 1, 300, &[192, 0, 2, 9]),
+                1 => rr(&owner, 255, 255, 0, &[]), // delete all rrsets
+                2 => rr(&owner, 1, 254, 0, &[192, 0, 2, 9]),
+                _ => {
+                    // encoded by hickory itself
+                    let rec = Record::from_rdata(name("built.example.com."), 60, RData::TXT(TXT::new(vec!["x".repeat(r.range(0, 40) as usize)])));
+                    let mut m = Message::new(0, MessageType::Query, OpCode::Update);
+                    m.add_answer(rec);
+                    m.to_vec().map(|v| v[12..].to_vec()).unwrap_or_default()
+                }
+            });
+        }
+    } else if r.chance(1, 12) {
+        // records in a query's answer/authority section are legal to decode
+        sections[r.below(2) as usize].push(rr(&qname, 1, 1, 60, &[192, 0, 2, 1]));
+    }
+    if let Some(o) = gen_edns(r) {
+        sections[2].push(o);
+        if r.chance(1, 10) {
+            sections[2].insert(0, rr(&qname, 16, 1, 0, &[3, b'a', b'b', b'c']));
+        }
+    }
+    let counts: Vec<u16> = sections.iter().map(|s| s.len() as u16).collect();
+    let mut bytes = header(id, b2, b3, 1, counts[0], counts[1], counts[2]);
+    bytes.extend(q);
+    for s in sections {
+        for x in s {
+            bytes.extend(x);
+        }
+    }
+    Built { bytes, qlen }
+}
+
+fn set_u16(v: &mut [u8], at: usize, x: u16) {
+    if v.len() >= at + 2 {
+        v[at..at + 2].copy_from_slice(&x.to_be_bytes());
+    }
+}
+
+/// one request byte string; `i` cycles through the kinds so that every kind is hit on every run
+fn gen_request(r: &mut Rng, zones: &[ZSpec], i: usize) -> Vec<u8> {
+    let op_for = |r: &mut Rng| -> u8 {
+        match r.below(10) {
+            0..=5 => 0,
+            6 | 7 => 5,
+            8 => 4,
+            _ => r.below(16) as u8,
+        }
+    };
+    let op = op_for(r);
+    match i % 40 {
+        0..=11 => gen_valid(r, zones, 0).bytes,
+        12..=14 => gen_valid(r, zones, 5).bytes,
+        15 => gen_valid(r, zones, 4).bytes,
+        16 | 17 => gen_valid(r, zones, (i / 40 % 16) as u8).bytes, // every opcode value in turn
+        18 => {
+            // QR = 1
+            let mut m = gen_valid(r, zones, op).bytes;
+            m[2] |= 0x80;
+            m
+        }
+        19 | 20 => {
+            // truncated at every length in turn (below and beyond the header)
+            let m = gen_valid(r, zones, op).bytes;
+            let cut = if i % 40 == 19 { (i / 40) % 13 } else { 12 + (i / 40) % (m.len() - 11) };
+            m[..cut.min(m.len())].to_vec()
+        }
+        21 | 22 => {
+            // QDCOUNT edits
+            let mut b_ = gen_valid(r, zones, op);
+            let qd = *r.pick(&[0u16, 0, 2, 2, 65535, 256, 3]);
+            set_u16(&mut b_.bytes, 4, qd);
+            if qd == 2 && r.chance(1, 2) {
+                // really carry two questions
+                let q = b_.bytes[12..12 + b_.qlen].to_vec();
+                let tail = b_.bytes.split_off(12 + b_.qlen);
+                b_.bytes.extend(q);
+                b_.bytes.extend(tail);
+            }
+            if qd == 0 && r.chance(1, 2) {
+                b_.bytes.truncate(12);
+            }
+            b_.bytes
+        }
+        23 | 24 => {
+            // other count edits
+            let mut m = gen_valid(r, zones, op).bytes;
+            let at = *r.pick(&[6usize, 8, 10]);
+            let v = *r.pick(&[0u16, 1, 2, 65535, 300]);
+            set_u16(&mut m, at, v);
+            m
+        }
+        25..=27 => {
+            // bit flips
+            let mut m = gen_valid(r, zones, op).bytes;
+            for _ in 0..r.range(1, 3) {
+                let at = r.below(m.len() as u64) as usize;
+                m[at] ^= 1 << r.below(8);
+            }
+            m
+        }
+        28 => {
+            // byte edits inside the question
+            let mut b_ = gen_valid(r, zones, op);
+            let at = 12 + r.below(b_.qlen as u64) as usize;
+            b_.bytes[at] = *r.pick(&[0u8, 0xC0, 0xC0, 0x40, 0x80, 63, 64, 0xFF, 1]);
+            b_.bytes
+        }
+        29 | 30 => {
+            // garbage tails (with and without a count that claims them)
+            let mut m = gen_valid(r, zones, op).bytes;
+            let k = r.range(1, 40) as usize;
+            m.extend(r.bytes(k));
+            if r.chance(1, 2) {
+                let c = u16::from_be_bytes([m[10], m[11]]).wrapping_add(1);
+                set_u16(&mut m, 10, c);
+            }
+            m
+        }
+        31 | 32 => {
+            // random bytes, sometimes behind a plausible header
+            let k = *r.pick(&[0usize, 1, 11, 12, 13, 17, 30, 64, 200]);
+            let mut m = r.bytes(k);
+            if r.chance(1, 2) && m.len() >= 12 {
+                m[2] &= 0x7F;
+                if r.chance(1, 2) {
+                    m[2] &= 0x07;
+                    set_u16(&mut m, 4, 1);
+                }
+            }
+            m
+        }
+        33 | 34 => {
+            // compressed question names: pointers into the header, to itself, forward
+            let id = r.next() as u16;
+            let b2 = (op << 3) | (r.below(2) as u8);
+            let mut m = header(id, b2, if r.chance(1, 3) { 0x10 } else { 0 }, 1, 0, 0, 0);
+            if r.chance(1, 2) {
+                m.extend([3, b'w', b'w', b'w']);
+            }
+            let target = *r.pick(&[0u16, 1, 2, 3, 4, 5, 6, 8, 10, 11, 12, 13, 14, 100]);
+            m.extend((0xC000u16 | target).to_be_bytes());
+            m.extend([0, *r.pick(&[1u8, 6, 252]), 0, 1]);
+            if r.chance(1, 3) {
+                m.extend(opt_rr(1232, 0, *r.pick(&[0u8, 1]), 0, &[]));
+                set_u16(&mut m, 10, 1);
+            }
+            m
+        }
+        35 => {
+            // EDNS edge cases: two OPTs, OPT outside the additional section, OPT with an owner name
+            let mut b_ = gen_valid(r, zones, op);
+            b_.bytes.truncate(12 + b_.qlen);
+            let ver = *r.pick(&[0u8, 1, 255]);
+            let (an, ns, ar, tail): (u16, u16, u16, Vec<u8>) = match r.below(4) {
+                0 => (0, 0, 2, [opt_rr(512, 0, ver, 0, &[]), opt_rr(4096, 0, 0, 0, &[])].concat()),
+                1 => (1, 0, 0, opt_rr(512, 0, ver, 0, &[])),
+                2 => (0, 0, 1, rr(&[1, b'x', 0], 41, 512, (ver as u32) << 16, &[])),
+                _ => (0, 1, 1, [rr(&[0], 250, 255, 0, &[]), opt_rr(512, 0, ver, 0, &[])].concat()),
+            };
+            set_u16(&mut b_.bytes, 6, an);
+            set_u16(&mut b_.bytes, 8, ns);
+            set_u16(&mut b_.bytes, 10, ar);
+            b_.bytes.extend(tail);
+            b_.bytes
+        }
+        36 => {
+            // label / name length limits in the question
+            let id = r.next() as u16;
+            let mut m = header(id, r.below(2) as u8, 0, 1, 0, 0, 0);
+            match r.below(4) {
+                0 => {
+                    m.push(63);
+                    m.extend(vec![b'a'; 63]);
+                    m.extend([3, b'c', b'o', b'm', 0]);
+                }
+                1 => {
+                    m.push(64);
+                    m.extend(vec![b'a'; 64]);
+                    m.push(0);
+                }
+                2 => {
+                    for _ in 0..127 {
+                        m.extend([1, b'a']);
+                    }
+                    m.push(0);
+                }
+                _ => {
+                    for _ in 0..128 {
+                        m.extend([1, b'a']);
+                    }
+                    m.push(0);
+                }
+            }
+            m.extend([0, 1, 0, 1]);
+            m
+        }
+        37 => {
+            // a big TCP-sized message: valid request + many additional records
+            let mut b_ = gen_valid(r, zones, 0);
+            b_.bytes.truncate(12 + b_.qlen);
+            let k = *r.pick(&[10u16, 100, 1000]);
+            for _ in 0..k {
+                b_.bytes.extend(rr(&[0xC0, 12], 16, 1, 0, &[4, b'x', b'x', b'x', b'x']));
+            }
+            set_u16(&mut b_.bytes, 10, k);
+            b_.bytes
+        }
+        38 => {
+            // EDNS version sweep on an otherwise plain query / update / notify
+            let op38 = *r.pick(&[0u8, 0, 5, 4, 2]);
+            let mut b_ = gen_valid(r, zones, op38);
+            b_.bytes.truncate(12 + b_.qlen);
+            set_u16(&mut b_.bytes, 6, 0);
+            set_u16(&mut b_.bytes, 8, 0);
+            set_u16(&mut b_.bytes, 10, 1);
+            b_.bytes.extend(opt_rr(*r.pick(&[512u16, 1232, 0]), 0, *r.pick(&[0u8, 1, 255, 7]), *r.pick(&[0u16, 0x8000]), &[]));
+            b_.bytes
+        }
+        _ => gen_valid(r, zones, op).bytes,
+    }
+}
+
+fn hand_configs() -> Vec<(Vec<ZSpec>, Vec<IpNet>, Vec<IpNet>)> {
+    let mem = |s: &str| ZSpec { origin: name(s), handlers: vec![HSpec::Mem { axfr: false }] };
+    let net = |s: &str| s.parse::<IpNet>().unwrap();
+    let scr = |zt, search, consult| HSpec::Scr { zt, search, consult, update: 0, xfer: None };
+    use Flow::*;
+    use ZoneType::*;
+    vec![
+        // nested + sibling + root zones, no ACL
+        (vec![mem("."), mem("com."), mem("example.com."), mem("sub.example.com."), mem("example.org.")], vec![], vec![]),
+        // no root: names outside are REFUSED; deny with a more specific allow
+        (vec![mem("example.com."), mem("a.b.sub.example.com.")], vec![net("10.0.0.0/8")], vec![net("10.1.0.0/16")]),
+        // allow-only list
+        (vec![mem("example.com.")], vec![], vec![net("192.168.1.0/24"), net("fd00::/120")]),
+        // the chained configurations of chained_zone_handler_tests.rs
+        (
+            vec![
+                ZSpec { origin: name("continueok.test."), handlers: vec![scr(External, Cont(LRes::Ok), None), scr(External, Cont(LRes::Ok), None)] },
+                ZSpec { origin: name("overwrite.test."), handlers: vec![scr(External, Cont(LRes::Ok), None), scr(External, Skip, Some(Cont(LRes::Err(3))))] },
+                ZSpec { origin: name("breakok.test."), handlers: vec![scr(External, Brk(LRes::Ok), None), scr(External, Brk(LRes::Err(2)), Some(Brk(LRes::Err(2))))] },
+                ZSpec { origin: name("skipprimary.test."), handlers: vec![scr(External, Skip, None), scr(External, Cont(LRes::Ok), None)] },
+                ZSpec { origin: name("skipboth.test."), handlers: vec![scr(Primary, Skip, None), scr(Primary, Skip, None)] },
+                ZSpec { origin: name("primaryerr.test."), handlers: vec![scr(Primary, Cont(LRes::Err(3)), None), scr(Primary, Skip, Some(Cont(LRes::Ok)))] },
+                ZSpec { origin: name("breakerr.test."), handlers: vec![scr(Primary, Brk(LRes::Err(3)), None), scr(Primary, Skip, Some(Cont(LRes::Ok)))] },
+                ZSpec { origin: name("consultskip.test."), handlers: vec![scr(Primary, Cont(LRes::Ok), None), scr(Primary, Skip, Some(Skip))] },
+                ZSpec { origin: name("memfirst.test."), handlers: vec![HSpec::Mem { axfr: true }, scr(Primary, Skip, None)] },
+            ],
+            vec![],
+            vec![],
+        ),
+        // same prefix denied and allowed; v4-mapped sources
+        (vec![mem(".")], vec![net("10.0.0.0/8"), net("fd00::/8")], vec![net("10.0.0.0/8"), net("fd00::1/128")]),
+        // empty catalog
+        (vec![], vec![], vec![]),
+    ]
+}
+
+pub fn run(o: &Opts, rec: &mut Recorder) {
+    rec.rule = "raw request byte strings (valid queries/updates/notifies of every opcode, EDNS versions, QR=1, truncations at every length, count edits, bit flips, garbage tails, compressed questions, random bytes) × catalogs (nested/sibling/root/relative-origin zones, in-memory and scripted chained handlers) × allow/deny sets × UDP/TCP; a case is non-trivial when the server sent a response; distinct by case line (configuration lines excluded)".into();
+    start_watchdog();
+    let rt = tokio::runtime::Builder::new_current_thread().enable_time().build().expect("runtime");
+    let mut run = Runner { rt, cfg: None };
+    for l in o.pre_lines.clone() {
+        run.exec(&l, rec);
+    }
+    if run.cfg.is_some() {
+        run.exec("end", rec);
+    }
+    rec.corpus_cases = rec.cases.len();
+    if o.replay_only {
+        return;
+    }
+    let mut r = Rng::new(o.seed);
+    // small-scope enumeration of the two flag octets of the header (QR, opcode, AA, TC, RD | RA, Z,
+    // AD, CD, rcode) over a fixed question: quick = every value of each octet, thorough = all 65536
+    {
+        let zones = vec![ZSpec { origin: name("example.com."), handlers: vec![HSpec::Mem { axfr: false }] }];
+        run.exec(&format!("begin {} - -", zones_tok(&zones)), rec);
+        let q: Vec<u8> = [wire_name(&labels_of(&name("www.example.com."))), vec![0, 6, 0, 1]].concat();
+        let mut one = |b2: u8, b3: u8, run: &mut Runner, rec: &mut Recorder| {
+            let mut m = header(0xBEEF, b2, b3, 1, 0, 0, 0);
+            m.extend(&q);
+            run.exec(&format!("req u 4:134744072 {} ? ? ?", hex(&m)), rec);
+        };
+        if o.thorough() {
+            for v in 0..=0xFFFFu16 {
+                one((v >> 8) as u8, v as u8, &mut run, rec);
+            }
+        } else {
+            for v in 0..=0xFFu8 {
+                one(v, r.byte(), &mut run, rec);
+                one(r.byte() & 0x7F, v, &mut run, rec);
+            }
+        }
+        run.exec("end", rec);
+    }
+    let blocks = o.n(500, 15000);
+    let per_block = 30;
+    let hand = hand_configs();
+    let mut i = 0usize;
+    for bi in 0..blocks {
+        let (zones, deny, allow) = if bi < hand.len() {
+            hand[bi].clone()
+        } else {
+            let z = gen_zones(&mut r);
+            let (d, a) = gen_acl(&mut r);
+            (z, d, a)
+        };
+        run.exec(&format!("begin {} {} {}", zones_tok(&zones), nets_tok(&deny), nets_tok(&allow)), rec);
+        for _ in 0..per_block {
+            let bytes = gen_request(&mut r, &zones, i);
+            i += 1;
+            let src = gen_src(&mut r, &deny, &allow);
+            let proto = if r.chance(1, 3) { "t" } else { "u" };
+            run.exec(&format!("req {proto} {} {} ? ? ?", ip_tok(src), hex(&bytes)), rec);
+        }
+        run.exec("end", rec);
+    }
+    let _ = BTreeMap::<u8, u8>::new();
+    let _ = DNSClass::IN;
 }
